@@ -204,7 +204,9 @@ class Gen(object):
             text = rng.choice(DUR_SEEDS)
             self.steps.append({"k": "mk", "id": sid, "t": "dur",
                                "text": text})
-            self.meta[sid] = {"type": "dur", "mag": dur_mag(text)}
+            self.meta[sid] = {"type": "dur", "mag": dur_mag(text),
+                              "interval_ok": not text.startswith("-")
+                              and text != "P0Y"}
         elif kind == "durctor":
             kw = rng.choice(DUR_CTORS)
             self.steps.append({"k": "mk", "id": sid, "t": "dur", "kw": kw})
@@ -234,6 +236,7 @@ class Gen(object):
 
     def tp_meta(self, src, dyears=0, **over):
         m = {k: v for k, v in self.meta[src].items() if k != "type"}
+        m["derived"] = True
         m["year"] = m.get("year", 2000) + dyears
         m.update(over)
         return m
@@ -306,7 +309,10 @@ class Gen(object):
                 return self.seed()
             # truncated vs full: comparison raises, addition is defined
             t, f = (a, b) if ma.get("trunc") else (b, a)
-            if self.meta[f].get("safe") and rng.random() < 0.7:
+            # only truncated points as written (a re-zoned one may carry a
+            # decimal hour, with which the addition never terminates)
+            if (self.meta[f].get("safe") and rng.random() < 0.7 and
+                    not self.meta[t].get("derived")):
                 order = [t, f] if rng.random() < 0.5 else [f, t]
                 return self.op("tp.add_tp", order, result="tp",
                                client=client,
@@ -474,7 +480,9 @@ class Gen(object):
         if r < 0.96:
             # a recurrence built from the caller's own pool values
             s = self.pick("tp", trunc=False)
-            d = self.pick("dur")
+            d = self.pick("dur", interval_ok=True)
+            # (an interval that is zero or of mixed sign makes the neighbour
+            # queries walk for ever: only durations as written, positive)
             if s is None or d is None or self.meta[d]["mag"] > 5000:
                 return self.seed()
             lo = self.pick("tp", trunc=False)
